@@ -88,6 +88,31 @@ Lemma caps_consistent_lemma :
   max_resolution_attempts = 3 /\  max_dname_depth <= max_queryer_recursion /\ max_cname_chase_depth <= max_queryer_recursion /\  0 < cname_loop_depth /\ 0 < cached_loop_depth_penalty /\ max_nsec3_iterations <= 500 /\  subquery_default_depth = default_maxdepth /\ 0 < default_maxdepth /\  0 < default_max_outbound /\ 0 < default_max_internal /\ 0 < default_max_dnskey_candidates /\  0 < default_max_rrset_signature_checks /\ 0 < default_max_signature_checks /\ 0 < default_max_ds_digests /\  0 < default_max_nsec3_hashes /\ 0 < default_max_concurrent_crypto /\  default_max_internal <= default_max_outbound.
 Proof. vm_compute. repeat split; congruence. Qed.
 
+(* the errors IsRequestLocalResolutionError lists now (never admitted to the failure cache, never
+   evidence against an authority) include the three request-tree limits of this property *)
+Definition name_in (n : list N) (l : list (list N)) : bool := existsb (fun x => if list_eq_dec N.eq_dec x n then true else false) l.
+Lemma request_local_errors_lemma :
+  name_in [69;114;114;82;101;99;117;114;115;105;111;110;87;111;114;107;76;105;109;105;116] request_local_errors = true /\   (* ErrRecursionWorkLimit *)
+  name_in [69;114;114;82;101;115;111;108;117;116;105;111;110;65;116;116;101;109;112;116;76;105;109;105;116] request_local_errors = true /\   (* ErrResolutionAttemptLimit *)
+  name_in [69;114;114;77;97;120;82;101;99;117;114;115;105;111;110] request_local_errors = true.      (* ErrMaxRecursion *)
+Proof. vm_compute. repeat split. Qed.
+
+(* configuration -> policy: a configured limit is the enforced limit, an omitted one is the default,
+   the mode is the configured one and an omitted mode means shadow *)
+Lemma policy_of_config_lemma : forall mt lims p, policy_of_config mt lims = Some p ->
+  (mt = 3 <-> p_mode p = mode_enforce) /\ (mt = 1 <-> p_mode p = mode_off) /\
+  (nth 0 lims 0 <> 0 -> p_max_out p = nth 0 lims 0) /\ (nth 1 lims 0 <> 0 -> p_max_int p = nth 1 lims 0) /\
+  (nth 2 lims 0 <> 0 -> p_max_key p = nth 2 lims 0) /\ (nth 3 lims 0 <> 0 -> p_max_rrsig p = nth 3 lims 0) /\
+  (nth 4 lims 0 <> 0 -> p_max_sig p = nth 4 lims 0) /\ (nth 5 lims 0 <> 0 -> p_max_ds p = nth 5 lims 0) /\
+  (nth 6 lims 0 <> 0 -> p_max_n3 p = nth 6 lims 0) /\ (nth 7 lims 0 <> 0 -> p_max_cc p = nth 7 lims 0).
+Proof.
+  intros mt lims p. unfold policy_of_config.
+  assert (L : forall v d, v <> 0 -> cfg_limit v d = v).
+  { intros v d Hv. unfold cfg_limit. destruct (N.eqb_spec v 0); [contradiction|reflexivity]. }
+  destruct (N.eqb_spec mt 0); [|destruct (N.eqb_spec mt 1); [|destruct (N.eqb_spec mt 2); [|destruct (N.eqb_spec mt 3)]]];
+    intros H; inversion H; subst; cbn; repeat split; intros; try discriminate; try lia; auto.
+Qed.
+
 (* ------------------------------------------------------------------ Part A: sequential facts *)
 
 Definition enforce (l : ledger) : Prop := p_mode (l_pol l) = mode_enforce.
